@@ -6,7 +6,7 @@ prove      props/C13.v over model/Placeholder.v (generic in the tables, instanti
 correspond the extracted model (run_c13) against python-pptx on every layout of every .pptx
            under /repo and on generated populations of the master, a layout and the notes
            master of the default template, over operation histories (add_slide repeatedly,
-           notes_slide, geometry setters on slide / layout / master / notes, xfrm removal,
+           shapes.clone_placeholder on slides that already hold shapes, notes_slide, geometry setters on slide / layout / master / notes, xfrm removal,
            renames that collide with future placeholder names, deletions, text boxes, and a
            malformed stream of out-of-range indices and values)
 oracle     the property's own statement evaluated on the real XML and on what the public API
@@ -312,9 +312,9 @@ class Deck:
         kinds = set()
         if toks[0] == "A":
             return
-        if toks[0] == "X" or (toks[0] == "E" and toks[1] in ("s", "n")):
+        if toks[0] in ("X", "P") or (toks[0] == "E" and toks[1] in ("s", "n")):
             try:
-                part = self.prs.slides[int(toks[1] if toks[0] == "X" else toks[2])].part
+                part = self.prs.slides[int(toks[1] if toks[0] in ("X", "P") else toks[2])].part
                 c.pop(("s", id(part)), None)
             except Exception:  # noqa
                 pass
@@ -381,6 +381,13 @@ class Deck:
             elif toks[0] == "X":
                 s, x, y, cx, cy = [int(t) for t in toks[1:6]]
                 prs.slides[s].shapes.add_textbox(x, y, cx, cy)
+            elif toks[0] == "P":
+                sl = prs.slides[int(toks[1])]
+                lph = list(self.layouts[int(toks[2])].placeholders)[int(toks[3])]
+                before = oracle.names_of(sl) if oracle else None
+                sl.shapes.clone_placeholder(lph)
+                if oracle:
+                    oracle.cloned(self, sl, lph, before, op)
             elif toks[0] == "E":
                 k, a, b = toks[1], int(toks[2]), int(toks[3])
                 sh = self.target(k, a, b)
@@ -593,6 +600,21 @@ class Oracle:
             if gotg != exp:
                 self.bad("notes_slide:geometry", "notes placeholder %r reports %r, the notes master gives %r" % (sh.name, gotg, exp), op)
 
+    @staticmethod
+    def names_of(slide):
+        return [raw_cnvpr(e).get("name") for e in shape_children(slide._element.cSld.spTree)]
+
+    def cloned(self, d, slide, lph, before, op):
+        """shapes.clone_placeholder on a slide that already has shapes: one placeholder appended with the
+        key of the layout placeholder and a name no other shape of the slide carries."""
+        got = shape_children(slide._element.cSld.spTree)
+        if len(got) != len(before) + 1 or raw_ph(got[-1]) is None or raw_key(raw_ph(got[-1])) != raw_key(raw_ph(lph._element)):
+            self.bad("clone_placeholder:mirror", "clone_placeholder did not append one placeholder with the key of its source", op)
+            return
+        name = raw_cnvpr(got[-1]).get("name")
+        if name in before:
+            self.bad("clone_placeholder:name", "clone_placeholder named the new placeholder %r, a name already used on the slide (%r)" % (name, before), op)
+
     def after_set(self, d, sh, attr, v, op):
         try:
             got = getattr(sh, attr)
@@ -690,7 +712,7 @@ def deck_sizes(path, pop):
         nmaster = len(ptypes(pop["master"]))
     if pop.get("nm") is not None:
         nm = ptypes(pop["nm"])
-    return {"layout": [len(t) for t in types],
+    return {"types": types, "layout": [len(t) for t in types],
             "clone": [len([x for x in t if x not in Oracle.LATENT]) for t in types],
             "master": nmaster, "notes": len([x for x in nm if x in Oracle.NOTES]), "nm": len(nm), "slides": nslides}
 
@@ -738,11 +760,26 @@ def gen_ops(rng, sizes, focus, n, malformed=False):
             ops.append("E s %d %d D" % (tgt, b))
             if tgt == s and b < new[s]:
                 new[s] -= 1
-        elif r < 0.64:
+        elif r < 0.61:
             ops.append("X %d %d %d %d %d" % (tgt, 914400, 914400, 1828800, 457200))
             if tgt == s:
                 new[s] += 1
-        elif r < 0.72:
+        elif r < 0.68:
+            lsrc = focus if rng.random() < 0.7 else rng.randrange(nlayouts)
+            i = pick(sizes["layout"][lsrc])
+            if rng.random() < 0.6 and i < len(sizes["types"][lsrc]) and new[s] > 0:
+                # aim a collision: give an existing shape the name the clone would get by default
+                base = meta()["basename_slide"].get(sizes["types"][lsrc][i])
+                if base:
+                    if rng.random() < 0.3:
+                        base = meta()["vertical_prefix"] + base
+                    for k in range(rng.choice([1, 1, 2, 3])):
+                        if k < new[s]:
+                            ops.append("E s %d %d R %s" % (tgt, k, " ".join(str(ord(c)) for c in "%s %d" % (base, new[s] + 1 + k + rng.choice([0, 0, 0, 1])))))
+            ops.append("P %d %d %d" % (tgt, lsrc, i))
+            if tgt == s:
+                new[s] += 1
+        elif r < 0.74:
             a = rng.randrange(4)
             ops.append("E l %d %d S %d %d" % (focus, pick(sizes["layout"][focus]), a, rand_value(rng, a, malformed)))
         elif r < 0.77:
@@ -815,6 +852,13 @@ def gen_cases(tier, rng):
                      {"id": 4, "name": "c", "type": t, "idx": [None, 2, 7, 3][variant], "orient": "vert" if variant == 2 else None, "tx": False}]
             cases.append(("directed", {"deck": "default", "pop": {"layout": [6, specs]},
                                        "ops": ["A 6", "A 6", "E s 0 1 S 0 77", "E l 6 1 S 2 555", "A 6", "N 0", "A 1"]}))
+    # directed naming histories: delete / rename so that the next id's default name is taken
+    def nm(txt):
+        return " ".join(str(ord(ch)) for ch in txt)
+    for lay, ren in ((1, "Title 3"), (1, "Content Placeholder 3"), (3, "Title 5"), (0, "Subtitle 3"), (1, "Date Placeholder 3")):
+        cases.append(("directed", {"deck": "default", "ops": [
+            "A %d" % lay, "E s 0 0 R " + nm(ren), "P 0 %d 0" % lay, "P 0 %d 1" % lay, "E s 0 1 D", "P 0 %d 2" % lay,
+            "E s 0 0 R " + nm("Title 4"), "E s 0 2 R " + nm("Title 5"), "P 0 %d 0" % lay, "X 0 1 2 3 4", "P 0 1 0", "P 0 %d 1" % lay]}))
     n_gen = 420 if tier == "quick" else 5000
     for i in range(n_gen):
         pop = {}
@@ -968,7 +1012,7 @@ def run(ck, tier, rng):
     ck.broken_build(oracle_found_concrete=any_concrete)
     return ck.finish(
         rule="every layout of each of the %d decks under /repo (one history per deck: add a slide from every layout, edits, repeated additions, notes slides) + %d directed layouts (each placeholder type x idx/orient/sz/xfrm variants, duplicated) + generated populations of master / one layout / notes master of the default template with histories of 4-14 operations (one in six with out-of-range indices and values) + histories on the decks that carry a notes master; non-trivial = the history created a slide with at least two placeholders or a notes slide with at least one"
-             % (len(corpus_files()), 68),
+             % (len(corpus_files()), 73),
         trusted_base=TB, assumptions=ASSUME,
         extra={"correspondence_diffs": diffs, "exhaustive": False, "skipped_outside_model": skipped,
                "partial_maps_today": partial, "histories": len(kept)},
